@@ -21,14 +21,14 @@ VARIABLES l,      \* next line to consume
 tvars == <<vars, l, drift, obs>>
 
 SetOf(sq) == {sq[i] : i \in 1..Len(sq)}
-ToChg(j) == [Chg(j.id, j.kind, j.au, j.named, j.cite, SetOf(j.par), j.snap, j.cidOk, j.sigOk) EXCEPT !.tw = j.tw]
+ToChg(j) == [Chg(j.id, j.kind, j.au, j.named, j.cite, SetOf(j.par), j.snap, j.cidOk, j.sigOk) EXCEPT !.tw = j.tw, !.al = j.al]
 BatchOfLine(x) == [k \in 1..Len(x.batch) |-> ToChg(x.batch[k])]
 
 IsEvent(e) == l <= Len(Trace) /\ Trace[l].ev = e /\ l' = l + 1
 
 Fresh(x) ==
     /\ focus' = "trace" /\ filt' = x.filt
-    /\ acl' = <<>> /\ hist' = <<>>
+    /\ acl' = <<>> /\ hist' = <<>> /\ unatt' = {}
     /\ phase' = "build" /\ verdict' = "none" /\ agree' = TRUE /\ reopenOk' = TRUE
     /\ LET r == Chg(1, "root", "W", "W", 0, {}, 0, TRUE, TRUE)
            d == Chg(1, "droot", "none", "none", 0, {}, 0, TRUE, FALSE)
@@ -41,7 +41,7 @@ Fresh(x) ==
 
 TraceInit ==
     /\ l = 1 /\ drift = 0 /\ obs = <<"none">>
-    /\ focus = "trace" /\ filt = FALSE /\ acl = <<>> /\ hist = <<>>
+    /\ focus = "trace" /\ filt = FALSE /\ acl = <<>> /\ hist = <<>> /\ unatt = {}
     /\ attached = {} /\ heads = {} /\ stored = {} /\ memRoot = 1
     /\ phase = "build" /\ verdict = "none" /\ agree = TRUE /\ reopenOk = TRUE
 
@@ -59,7 +59,7 @@ TrAcl ==
     \* the transcription of the appliers must give the answers the real ACL gives
     /\ drift' = IF \A i \in 0..(N + 1) : (LET p == Closest(hist', Len(hist'), i) IN p) = Trace[l].perms[i + 1]
                 THEN drift ELSE drift + 1
-    /\ UNCHANGED <<focus, filt, attached, heads, stored, memRoot, phase, verdict, agree, reopenOk>>
+    /\ UNCHANGED <<focus, filt, unatt, attached, heads, stored, memRoot, phase, verdict, agree, reopenOk>>
 
 Explained(x, r) ==
     /\ r.verdict = x.v
@@ -83,7 +83,7 @@ TrDeliver ==
             THEN Apply(r) /\ drift' = drift
             ELSE \* not explained: adopt what the real tree did, the invariants still judge it
                  /\ attached' = Recs(x, x.att) /\ heads' = SetOf(x.heads)
-                 /\ stored' = Recs(x, x.st) /\ memRoot' = x.mr
+                 /\ stored' = Recs(x, x.st) /\ memRoot' = x.mr /\ unatt' = {}
                  /\ drift' = drift + 1
                  /\ PrintT(<<"TRACE-DRIFT-AT", l, "predicted", r.verdict, Ids(r.attached), r.heads, Ids(r.stored), r.memRoot>>)
     /\ verdict' = "none"
@@ -99,6 +99,7 @@ TrReopen ==
           /\ IF x.ok THEN /\ attached' = {c \in attached \cup stored : c.id \in SetOf(x.att)}
                           /\ heads' = SetOf(x.heads) /\ memRoot' = x.mr
                      ELSE UNCHANGED <<attached, heads, memRoot>>
+          /\ unatt' = {}
           /\ drift' = IF x.ok = ok /\ (x.ok => (SetOf(x.att) = Ids(stored) /\ x.mr = 1)) THEN drift ELSE drift + 1
     /\ UNCHANGED <<focus, filt, acl, hist, stored, phase, verdict, agree, obs>>
 
